@@ -326,7 +326,17 @@ def wiring(ctx: Ctx):
                                      "a smoothed total over a smoothed count is a NaN-skipping (or re-weighted) average, not the moving average of the measure")
     ctx.count("smoothed operands", n_ops)
     ctx.require_min("smoothed operands", 6)
-    outside = sorted(k for k in sites if k not in allowed)
+    def _only_for_allowed(k) -> bool:
+        """a call site in a shared base / mixin of the smoothed measures (a helper they all use): every class deriving from it
+        is one of the listed measures"""
+        ci_ = ctx.repo.opt_cls(k[0], k[1])
+        if ci_ is None:
+            return False
+        subs = ci_.all_subclasses() if hasattr(ci_, "all_subclasses") else []
+        leaves_ = [(x.module.path.split("cr/cube/")[-1], x.name) for x in subs]
+        return bool(leaves_) and all(l in allowed or _only_for_allowed(l) for l in leaves_)
+
+    outside = sorted(k for k in sites if k not in allowed and not _only_for_allowed(k))
     if outside:
         ctx.violated("wiring.sites", "package: calls of .smooth()", [f"{a}::{b}" for a, b in outside], sorted(f"{a}::{b}" for a, b in allowed), "the smoother is applied to the listed measures and to nothing else")
     else:
